@@ -184,3 +184,54 @@ def load_records(config, thash=None, repo=REPO):
         pickle.dump(recs, fh, protocol=pickle.HIGHEST_PROTOCOL)
     os.replace(tmp, pk)
     return recs
+
+
+SHIMS = os.path.join(VERIF, "engine", "shims")
+
+
+def shim_records():
+    """fact records of engine/shims (reference bodies of std's closure-taking combinators), produced by the same driver;
+    cached by the content of the shim source and the driver's identity"""
+    ensure_driver()
+    h = hashlib.sha256()
+    for rel in ("Cargo.toml", os.path.join("src", "lib.rs")):
+        with open(os.path.join(SHIMS, rel), "rb") as fh:
+            h.update(fh.read())
+    st = os.stat(DRIVER)
+    h.update(("drv:%d:%d" % (st.st_size, int(st.st_mtime))).encode())
+    key = h.hexdigest()[:20]
+    out = os.path.join(CACHE, "shims", key)
+    f = os.path.join(out, "vshims.jsonl")
+    if not os.path.exists(os.path.join(out, "OK")):
+        os.makedirs(os.path.join(CACHE, "locks"), exist_ok=True)
+        lock = open(os.path.join(CACHE, "locks", "shims.lock"), "w")
+        fcntl.flock(lock, fcntl.LOCK_EX)
+        try:
+            if not os.path.exists(os.path.join(out, "OK")):
+                if os.path.exists(out):
+                    shutil.rmtree(out)
+                os.makedirs(out)
+                target = os.path.join(out, "target")     # fresh: cargo must not skip the wrapper
+                env = dict(os.environ)
+                env.update(LD_LIBRARY_PATH=os.path.join(sysroot(), "lib"), RUSTFLAGS="-Zmir-opt-level=0 -Awarnings", RUSTC_WORKSPACE_WRAPPER=DRIVER,
+                           MIRFACTS_OUT=out, MIRFACTS_ROOT=SHIMS, MIRFACTS_TREE="shims-" + key, CARGO_TARGET_DIR=target, CARGO_NET_OFFLINE="true", CARGO_INCREMENTAL="0")
+                env.pop("RUSTC_WRAPPER", None)
+                r = subprocess.run(["cargo", "+nightly", "check", "--offline", "--manifest-path", os.path.join(SHIMS, "Cargo.toml")], cwd=SHIMS, env=env, capture_output=True, text=True)
+                if r.returncode != 0 or not os.path.exists(f):
+                    raise BuildError("cargo check of engine/shims failed\n" + r.stderr[-3000:])
+                shutil.rmtree(target, ignore_errors=True)
+                with open(os.path.join(out, "OK"), "w") as fh:
+                    fh.write("ok\n")
+                # older shim caches
+                base = os.path.join(CACHE, "shims")
+                for d in os.listdir(base):
+                    if d != key:
+                        shutil.rmtree(os.path.join(base, d), ignore_errors=True)
+        finally:
+            fcntl.flock(lock, fcntl.LOCK_UN)
+            lock.close()
+    recs = []
+    with open(f) as fh:
+        for line in fh:
+            recs.append(json.loads(line))
+    return recs
